@@ -494,6 +494,8 @@ func (jf *JSONFamily) Install() {
 		switch {
 		case f.Name() == "MarshalJSON" && !ptr && isStruct && len(jt.Schema.OneOf) > 0:
 			jf.installOneOfOuter(f, jt)
+		case f.Name() == "UnmarshalJSON" && ptr && isStruct && len(jt.Schema.OneOf) > 0:
+			jf.installOneOfUn(f, jt)
 		case f.Name() == "marshalJSONInnerBody" && !ptr && isArr:
 			jf.installArrayInner(f, jt)
 			for _, g := range f.AnonFuncs {
